@@ -1,34 +1,83 @@
 (* C18 -- computations never modify caller-owned data; failures leave pulses usable.
-   PARTIAL: this file proves the second half (failures) on the cache state machine of C07.  The first half
-   (ownership: no public computation writes into an array owned by the caller or returned earlier) is decided
-   by exploration in tools/ffv/props/c18.py (fingerprinted / write-protected arguments), not by a theorem;
-   the theorem names carry the suffix _partial for that reason.
+   Second half (failures): proved on the cache state machine of C07.
+   First half (ownership): proved for the alias IR of every function of the package (Model/Alias.v: semantics,
+   checker [safe], soundness theorem [safe_sound]; Extracted/AliasIR.v: the IR of the current sources with an
+   untrusted certificate, regenerated on every run by tools/alias_extract.py).  What is trusted for this half is
+   the translation Python -> IR (the numpy view / copy classification table and the translation rules listed in
+   tools/alias_extract.py); the exploration of tools/ffv/props/c18.py (fingerprinted / write-protected arguments)
+   is kept as supporting evidence for exactly that trusted part.
    This file contains only statements closed by [exact <lemma>] and their assumptions.                 *)
-From Coq Require Import List Bool Arith NArith.
+From Coq Require Import List Bool Arith NArith String.
+From FF Require Import Model.Alias Extracted.AliasIR Proofs.AliasSafe.
+(* imported last: Cache.Call, Cache.step, Cache.guard, Cache.upd take precedence over the names of Model.Alias *)
 From FF Require Import Extracted.Src Model.Cache Model.Tie.C07 Model.Tie.C18 Proofs.Cache.
 Import ListNotations.
 
+(* ---------------------------------------------------------------- ownership *)
+(* Soundness of the checker, for any program and certificate: in every execution of a public function (any call
+   depth n, any sequence of its statements and of those of the functions it calls, any valuation of the guards)
+   every object written is local to the computation (CL) or a parameter documented as written in place. *)
+Theorem C18_safe_sound : forall P C publics, safe P C publics = true ->
+  forall f inplace, In (f, inplace) publics ->
+  forall n ws rs, fn_beh P n f ws rs ->
+  forall w, In w ws -> w = CL \/ exists i, w = CP i /\ In i inplace.
+Proof. exact safe_sound. Qed.
+Print Assumptions C18_safe_sound.
+
+(* the translator expressed every function of the current sources *)
+Theorem C18_all_functions_translated : alias_untranslated = [].
+Proof. exact alias_translated. Qed.
+
+(* the checker accepts the current sources *)
+Theorem C18_ownership_checked : safe alias_prog alias_cert alias_publics = true.
+Proof. exact alias_safe. Qed.
+
+(* hence: no public function of the package (103 of them; parameter i of the Python function is the pair of IR
+   parameters 2i -- the object -- and 2i+1 -- what is reachable from it) writes memory of provenance CX (attributes
+   of self or of an input pulse, module data, anything possibly owned by the caller or returned earlier) or memory
+   of a parameter that is not documented as in-place (out=, Basis.normalize / tidyup, remove_float_errors, the
+   object under construction in __init__ / __new__ / __array_finalize__). *)
+Theorem C18_ownership : forall f inplace, In (f, inplace) alias_publics ->
+  forall n ws rs, fn_beh alias_prog n f ws rs ->
+  forall w, In w ws -> w = CL \/ exists i, w = CP i /\ In i inplace.
+Proof. exact alias_ownership. Qed.
+Print Assumptions C18_ownership.
+
+Theorem C18_ownership_nonvacuous :
+  Nat.leb 100 (List.length alias_publics) = true /\ Nat.leb 300 (List.length alias_prog) = true /\
+  forallb (fun pub => defined alias_prog (fst pub)) alias_publics = true.
+Proof. exact alias_nonvacuous. Qed.
+(* the semantics has executions that write external memory, and the checker rejects certificates hiding them *)
+Theorem C18_checker_rejects :
+  check_all ex_prog ex_cert_good = true /\ check_all ex_prog ex_cert_bad = false /\
+  safe ex_prog ex_cert_good [(0%N, [0%nat])] = true /\ safe ex_prog ex_cert_good [(0%N, [])] = false /\
+  safe ex_prog ex_cert_good [(1%N, [0%nat])] = false.
+Proof. exact ex_checks. Qed.
+Theorem C18_semantics_example : fn_beh ex_prog 2 1%N [CX; CX] [].
+Proof. exact ex_semantics. Qed.
+
+(* ---------------------------------------------------------------- failures *)
 (* A call that raises -- an exception out of numeric code at any of the modelled raise points (k arbitrary),
    CalculationError of the pulse-correlation getters, ValueError of argument validation before the first
    effect or of a request for other frequencies -- leaves every object of the store coherent. *)
-Theorem C18_failure_coherent_partial : forall st i o k e, Coherent st -> op_ok o = true ->
+Theorem C18_failure_coherent : forall st i o k e, Coherent st -> op_ok o = true ->
   snd (fst (exec fixed st (Call i o k))) = Raise e -> Coherent (step st (Call i o k)).
 Proof. exact failure_coherent. Qed.
-Print Assumptions C18_failure_coherent_partial.
+Print Assumptions C18_failure_coherent.
 
 (* ... and all subsequent results are still correct: after the failed call and any further history (which may
    contain further failed calls), every request naming its frequencies is answered as on a fresh pulse. *)
-Theorem C18_failure_then_correct_partial : forall st i o k e ops j o' g,
+Theorem C18_failure_then_correct : forall st i o k e ops j o' g,
   Coherent st -> op_ok o = true -> snd (fst (exec fixed st (Call i o k))) = Raise e ->
   forallb gop_ok ops = true ->
   let st' := fold_left step ops (step st (Call i o k)) in
   j < nobj st' -> grid_getter o' g ->
   value_of (result st' (Call j o' never)) = value_of (result init (Call 0 o' never)).
 Proof. exact failure_then_correct. Qed.
-Print Assumptions C18_failure_then_correct_partial.
+Print Assumptions C18_failure_then_correct.
 
 (* argument validation fails before any effect *)
-Theorem C18_validation_no_effect_partial : forall l k,
+Theorem C18_validation_no_effect : forall l k,
   run_op fixed BadParams l k = (l, k, Raise E_value).
 Proof. exact (fun l k => eq_refl). Qed.
 
@@ -39,7 +88,3 @@ Example C18_failure_example :
   occupancy (step st (Call 1 (GetFF g2 Fidelity Second false) (Some 0))) 1 = 197051%N.
 Proof. split; vm_compute; reflexivity. Qed.
 
-(* Not proved: the ownership half ("no public computation writes into an array owned by the caller or
-   returned to the caller earlier").  No formal statement of it is claimed here: the alias IR of DESIGN.md
-   (Model/Alias.v, safe_sound) was not built, so there is no model of Python aliasing in which the statement
-   could be written.  It is decided by exploration (tools/ffv/props/c18.py), see docs/notes/C18.md. *)
